@@ -267,6 +267,17 @@ void body_stream(void*) {
       }
       if (c.started) KIT_CHECK(c.connects == 1, "c13.cleanup-count", "stream %d: %d cleanup operations", sid, c.connects);
     }
+    // C04: a stop request on the consumer's token reaches the source's running next(): one that completes after the
+    // request_stop() call has returned saw stop requested on the token it was given (every adaptor here forwards stop)
+    if (r.stop_end)
+      for (int i = 0; i < s.next_calls; ++i) {
+        Gate& g = s.next_gate[i];
+        if (g.started && g.claimed && g.stop_possible && g.complete_begin > r.stop_end) {
+          KIT_CHECK(g.stop_at_completion, "c04.stop-reaches-child", "%s: the source's next() #%d completed (seq %llu, started %llu) after request_stop() on the consumer had returned (seq %llu) without a stop request on its token",
+                    kShape[w->shape], i, (unsigned long long)g.complete_begin, (unsigned long long)g.start_seq, (unsigned long long)r.stop_end);
+          usim_probe("stream stop reached a running next()");
+        }
+      }
     if (w->nreceived < nm && r.stop_begin) usim_probe("stop ended the sequence early");
     if (w->nreceived < nm && uses_trigger && !r.stop_begin) usim_probe("trigger ended the sequence early");
     if (w->nreceived == nm) usim_probe("full sequence delivered");
